@@ -59,7 +59,7 @@ Lemma open_dest_real e dest s s1 c0 dm :
   open_dest e dest false s = Some (s1, Some (c0, dm)) ->
   exists m0, stat (sw s1) dest = Some (NFile c0 m0) /\ dm = st_mode (NFile c0 m0) /\
              only_at (res (sw s) dest) s s1 /\
-             ((s1 = s) \/ (stat (sw s) dest = None /\ c0 = ""%string /\ slog s1 <> slog s)).
+             ((s1 = s) \/ (stat (sw s) dest = None /\ c0 = ""%string /\ m0 = file_create_mode e /\ slog s1 <> slog s)).
 Proof.
   unfold open_dest. destruct (stat (sw s) dest) as [[c m|m|t]|] eqn:Hst.
   - intro H; simp_eqs. exists m. repeat split; auto using only_at_refl.
@@ -143,7 +143,7 @@ Inductive copy_summary (e : env) (p : copy_params) (s s' : st) (ch : bool) : Pro
 | mk_cs : forall (cs_want : string) (cs_c0 : string) (cs_m0 : N) (cs_mf : N) (cs_s1 : st),
     forall (cs_want_ok : desired_content (cp_input p) (sw cs_s1) = Some cs_want),
     forall (cs_open : stat (sw cs_s1) (cp_dest p) = Some (NFile cs_c0 cs_m0)),
-    forall (cs_first : (cs_s1 = s) \/ (stat (sw s) (cp_dest p) = None /\ cs_c0 = ""%string /\ slog cs_s1 <> slog s)),
+    forall (cs_first : (cs_s1 = s) \/ (stat (sw s) (cp_dest p) = None /\ cs_c0 = ""%string /\ cs_m0 = file_create_mode e /\ slog cs_s1 <> slog s)),
     forall (cs_final : stat (sw s') (cp_dest p) = Some (NFile cs_want cs_mf)),
     forall (cs_frame1 : only_at (res (sw s) (cp_dest p)) s cs_s1),
     forall (cs_frame : only_at (res (sw s) (cp_dest p)) s s'),
@@ -254,17 +254,20 @@ Qed.
 
 (* C04, copy: reported `ok` means nothing was done at all, outside K8 *)
 Lemma copy_ok_noop e p s s' :
-  copy_file e p false s = (ROk false, s') -> known_empty_create (TCopy p) (sw s) = false -> s' = s.
+  copy_file e p false s = (ROk false, s') -> known_empty_create e (TCopy p) (sw s) = false -> s' = s.
 Proof.
   intros H Hk. apply copy_real_summary in H as [want c0 m0 mf s1 Hwant Hopen Hfirst Hfinal F1 F Hmode Hnoop].
-  apply Hnoop; [reflexivity|]. destruct Hfirst as [|(Hnone & -> & _)]; [assumption|]. exfalso.
-  assert (Hch1 : String.eqb "" want = true).
-  { destruct (cp_mode p) as [| |ms].
-    - destruct Hmode as [_ E]. symmetry in E. now apply negb_false_iff in E.
-    - destruct Hmode as (? & ? & _ & _ & _ & n2 & _ & E). symmetry in E. apply orb_false_iff in E as [E _]. now apply negb_false_iff in E.
-    - destruct Hmode as (? & _ & _ & E). symmetry in E. apply orb_false_iff in E as [E _]. now apply negb_false_iff in E. }
+  apply Hnoop; [reflexivity|]. destruct Hfirst as [|(Hnone & -> & -> & _)]; [assumption|]. exfalso.
+  assert (Hch1 : String.eqb "" want = true /\ mode_pending e p = false).
+  { unfold mode_pending. destruct (cp_mode p) as [| |ms].
+    - destruct Hmode as [_ E]. symmetry in E. split; [now apply negb_false_iff in E|reflexivity].
+    - destruct Hmode as (? & ? & _ & _ & _ & n2 & _ & E). symmetry in E. apply orb_false_iff in E as [E _].
+      split; [now apply negb_false_iff in E|reflexivity].
+    - destruct Hmode as (m & Ho & _ & E). symmetry in E. apply orb_false_iff in E as [E E2].
+      split; [now apply negb_false_iff in E|]. rewrite Ho. exact E2. }
+  destruct Hch1 as [Hch1 Hmp].
   apply String.eqb_eq in Hch1. subst want.
-  cbn [known_empty_create] in Hk. rewrite Hnone in Hk.
+  cbn [known_empty_create] in Hk. unfold kec_copy in Hk. rewrite Hnone, Hmp in Hk. cbn [negb] in Hk. rewrite andb_true_r in Hk.
   destruct (cp_input p) as [c|src] eqn:Hin; cbn in Hwant.
   - inversion Hwant; subst. discriminate Hk.
   - destruct (read_src (sw s) src) as [c|] eqn:Hr; [|discriminate Hk].
@@ -319,16 +322,16 @@ Lemma copy_predicts e p s c1 s1 c2 s2 :
   copy_file e p true s = (ROk c1, s1) ->
   copy_file e p false s = (ROk c2, s2) ->
   no_alias (TCopy p) (sw s) = true ->
-  known_empty_create (TCopy p) (sw s) = false ->
+  known_empty_create e (TCopy p) (sw s) = false -> tmp_like_create e ->
   c1 = c2.
 Proof.
-  intros Hc Hr Hna Hk.
+  intros Hc Hr Hna Hk Htmp.
   apply copy_real_summary in Hr as [want c0 m0 mf r1 Hwant Hopen Hfirst Hfinal F1 F Hmode Hnoop].
   assert (Hw : desired_content (cp_input p) (sw s) = Some want).
   { destruct (cp_input p) as [c|src] eqn:Hin; cbn in *; [assumption|].
     rewrite <- Hwant. symmetry. eapply read_src_frame; eauto. eapply no_alias_copy_src; eauto. }
   revert Hc. unfold copy_file, open_dest.
-  destruct Hfirst as [->|(Hnone & -> & _)].
+  destruct Hfirst as [->|(Hnone & -> & -> & _)].
   - (* destination existed: both runs take the same decisions *)
     rewrite Hopen, Hw. unfold content_phase.
     assert (Hcp : (if String.eqb c0 want then Some (s, false) else if true then Some (s, true) else None)
@@ -354,22 +357,32 @@ Proof.
         destruct (change_permissions _ _ _ _ true) as [[s3 ch2]|]; intro H; simp_eqs. reflexivity.
       * destruct Hmode as (m & Ho & Hmf & ->). rewrite Ho.
         destruct (change_permissions _ _ _ _ true) as [[s3 ch2]|]; intro H; simp_eqs. reflexivity.
-  - (* destination absent: outside K8 the content differs, so both report changed *)
+  - (* destination absent: outside K8 either the content differs or a chmod is pending: both report changed *)
     rewrite Hnone. cbn [sw log1]. rewrite Hw.
-    assert (Hne : String.eqb "" want = false).
-    { cbn [known_empty_create] in Hk. rewrite Hnone in Hk.
-      destruct (cp_input p) as [c|src] eqn:Hin; cbn in Hw.
-      - inversion Hw; subst. now rewrite String.eqb_sym.
-      - rewrite Hw in Hk. now rewrite String.eqb_sym. }
-    unfold content_phase. rewrite Hne.
-    assert (Hc2 : c2 = true).
-    { destruct (cp_mode p) as [| |ms].
-      - destruct Hmode as [_ ->]. now rewrite Hne.
-      - destruct Hmode as (? & ? & _ & _ & _ & ? & _ & ->). now rewrite Hne.
-      - destruct Hmode as (? & _ & _ & ->). now rewrite Hne. }
-    subst c2. unfold mode_phase.
-    destruct (cp_mode p) as [| |ms].
-    + intro H; simp_eqs. reflexivity.
-    + intro H. repeat (break_match; simp_eqs); reflexivity.
-    + intro H. repeat (break_match; simp_eqs); reflexivity.
+    destruct (String.eqb "" want) eqn:Hne.
+    + (* empty content: a numeric mode that differs from the creation mode *)
+      assert (Hmp : mode_pending e p = true).
+      { cbn [known_empty_create] in Hk. unfold kec_copy in Hk. rewrite Hnone in Hk.
+        destruct (mode_pending e p); [reflexivity|]. cbn [negb] in Hk. rewrite andb_true_r in Hk.
+        apply String.eqb_eq in Hne. subst want.
+        destruct (cp_input p) as [c|src] eqn:Hin; cbn in Hw.
+        - inversion Hw; subst. discriminate Hk.
+        - rewrite Hw in Hk. discriminate Hk. }
+      unfold mode_pending in Hmp. unfold content_phase. rewrite Hne. unfold mode_phase.
+      destruct (cp_mode p) as [| |ms]; try discriminate Hmp.
+      destruct Hmode as (m & Ho & _ & ->). rewrite Ho in Hmp |- *. cbn [negb orb]. rewrite Hmp.
+      destruct (change_permissions _ _ _ _ true) as [[s3 ch2]|] eqn:Hcp2; intro H; simp_eqs.
+      apply change_permissions_check_ch in Hcp2 as [-> ->]. cbn [orb].
+      rewrite (mask_perm_add_type ifreg (tmpmode e)) by (now left). rewrite Htmp. exact Hmp.
+    + unfold content_phase. rewrite Hne.
+      assert (Hc2 : c2 = true).
+      { destruct (cp_mode p) as [| |ms].
+        - destruct Hmode as [_ ->]. reflexivity.
+        - destruct Hmode as (? & ? & _ & _ & _ & ? & _ & ->). reflexivity.
+        - destruct Hmode as (? & _ & _ & ->). reflexivity. }
+      subst c2. unfold mode_phase.
+      destruct (cp_mode p) as [| |ms].
+      * intro H; simp_eqs. reflexivity.
+      * intro H. repeat (break_match; simp_eqs); reflexivity.
+      * intro H. repeat (break_match; simp_eqs); reflexivity.
 Qed.
